@@ -31,6 +31,7 @@ import (
 	"github.com/jech/storrent/known"
 	"github.com/jech/storrent/peer"
 	"github.com/jech/storrent/tor"
+	"github.com/jech/storrent/tracker"
 
 	"verifharness/internal/content"
 	"verifharness/internal/mktor"
@@ -783,6 +784,14 @@ func failingTracker() string {
 		}
 		trackerAddr = ln.Addr().String()
 		go http.Serve(ln, http.HandlerFunc(func(w http.ResponseWriter, r *http.Request) {
+			if zone, ok := strings.CutPrefix(r.URL.Path, "/P/"); ok {
+				// a reply in the original (dictionary) format whose peer address carries an IPv6 zone
+				ip := "2001:db8::7%" + zone
+				body := fmt.Sprintf("d8:intervali1800e5:peersld2:ip%d:%s4:porti6881eeee", len(ip), ip)
+				w.Header().Set("Content-Length", fmt.Sprint(len(body)))
+				w.Write([]byte(body))
+				return
+			}
 			reason := strings.TrimPrefix(r.URL.Path, "/E/")
 			body := fmt.Sprintf("d14:failure reason%d:%se", len("E "+reason), "E "+reason)
 			w.Header().Set("Content-Length", fmt.Sprint(len(body)))
@@ -812,7 +821,9 @@ func runWebUI(c *Case, out *Out) {
 	}
 	wsu := "http://seed.example/base/" + hostileFor("webseed-url", set) + "/"
 	spec := mktor.Spec{Name: name, PieceLen: 2 * CS, Seed: uint64(c.ID) + 5, Trackers: []string{trk}, Webseeds: []string{wsu},
-		Files: []mktor.File{{Path: []string{dirc, filec}, Length: 30000}, {Path: []string{dirc, nl}, Length: 5000}, {Path: []string{"plain.txt"}, Length: 777}}}
+		Files: []mktor.File{{Path: []string{dirc, filec}, Length: 30000}, {Path: []string{dirc, nl}, Length: 5000}, {Path: []string{"plain.txt"}, Length: 777},
+			// line breaks in paths that hold nothing else a URL would escape
+			{Path: []string{"episode-1.mkv\nhttp:", "attacker.example", "x.mkv"}, Length: 600}, {Path: []string{"cr\rname.mp3"}, Length: 500}}}
 	l, err := start(spec, true)
 	if err != nil {
 		out.Note = "torrent: " + err.Error()
@@ -825,6 +836,23 @@ func runWebUI(c *Case, out *Out) {
 		cc()
 		if st, err := tl[0][0].GetState(); err == nil || !strings.Contains(err.Error(), hostileFor("tracker-error", set)) {
 			out.Nonconf = append(out.Nonconf, fmt.Sprintf("the failing tracker did not leave its error text (state %v, err %v)", st, err))
+		}
+	}
+	if trackerAddr != "" {
+		// a tracker names a peer whose address has a zone of its choosing
+		tr := tracker.New("http://" + trackerAddr + "/P/" + url.PathEscape(hostileFor("tracker-peer-zone", set)))
+		if tr != nil {
+			actx, cc := context.WithTimeout(context.Background(), 5*time.Second)
+			got := 0
+			tr.Announce(actx, l.t.Hash, l.t.MyId, 10, 0, 0, 0, "", func(ap netip.AddrPort) bool {
+				got++
+				l.t.AddKnown(ap, nil, "", known.Tracker)
+				return true
+			})
+			cc()
+			if got == 0 {
+				out.Nonconf = append(out.Nonconf, "the tracker's peer with a zone in its address was not learnt")
+			}
 		}
 	}
 	ver := hostileFor("known-version", set)
@@ -969,7 +997,7 @@ func runWebUI(c *Case, out *Out) {
 		if strings.Contains(page, idcode) {
 			viol("unescaped:peer-id-code", fmt.Sprintf("the client code %q cut from a peer id appears unescaped in the page", idcode))
 		}
-		for _, src := range []string{"name", "dir-component", "file-component", "tracker-url", "tracker-error", "webseed-url", "known-version", "single-name", "magnet-name"} {
+		for _, src := range []string{"name", "dir-component", "file-component", "tracker-url", "tracker-error", "webseed-url", "known-version", "single-name", "magnet-name", "tracker-peer-zone"} {
 			raw := hostileFor(src, set)
 			if strings.Contains(page, raw) {
 				viol("unescaped:"+src, fmt.Sprintf("the %s %q appears unescaped in the page", src, raw))
